@@ -884,7 +884,8 @@ impl<'a> VerifDriver for Sim<'a> {
             let mut full = before.clone(); for x in evs { fold1(&mut full, x); }
             let stuck: Vec<KeyCode> = self.out_held.iter().filter(|k| !is_mod(k) && !before.contains(k) && !full.contains(k)).cloned().collect();
             if !stuck.is_empty() { self.wire_note(format!("[partial-step] the failed write left {} down on the virtual keyboard although the batch {} as a whole leaves it up (the device got {})", keys_str(&stuck), evs_str(evs), evs_str(&seen))); }
-            self.wire_note(format!("[partial] the failed write left {} of the {} records of batch {} on the device, without the closing SYN_REPORT", arrived.len() / crate::wiresim::REC, evs.len() + 1, evs_str(evs)));
+            // (a part of a frame on the device after a *reported* failure is counted, not judged: no statement
+            // says a batch must go out in one write call; what is judged is the stuck key above)
           }
           if !seen.is_empty() { self.trace.push(Item::Send { evs: seen, t_out: self.now() }); }
           self.hw_failed = true;
